@@ -151,6 +151,8 @@ class SimTextR(io.TextIOWrapper):
         self.neof = 0
         self.nread = 0
         self.sim_closed = False
+        self._in_next = False
+        self.nerr = 0
 
     @property
     def name(self):
@@ -159,6 +161,8 @@ class SimTextR(io.TextIOWrapper):
     def __next__(self):
         disk = self._sim[0]
         disk.yield_point("readline")
+        # TextIOWrapper.__next__ of a subclass calls self.readline(): count only once.
+        self._in_next = True
         try:
             line = super().__next__()
         except StopIteration:
@@ -166,15 +170,21 @@ class SimTextR(io.TextIOWrapper):
             if self.neof > disk.eof_limit:
                 raise disk.liveness_exc(f"EOF hit {self.neof} times on {self.path}") from None
             raise
+        except BaseException:
+            self.nerr += 1  # e.g. UnicodeDecodeError: a read attempt that delivered nothing
+            raise
+        finally:
+            self._in_next = False
         self.nlines += 1
         return line
 
     def readline(self, *a):
         line = super().readline(*a)
-        if line == "":
-            self.neof += 1
-        else:
-            self.nlines += 1
+        if not self._in_next:
+            if line == "":
+                self.neof += 1
+            else:
+                self.nlines += 1
         return line
 
     def read(self, *a):
